@@ -5,6 +5,7 @@ import (
 	"fmt"
 	"time"
 
+	"github.com/twmb/franz-go/pkg/kadm"
 	"github.com/twmb/franz-go/pkg/kfake"
 	"github.com/twmb/franz-go/pkg/kgo"
 
@@ -26,6 +27,9 @@ import (
 // (Added after an independent seeded change was missed: a shallow clone of
 // the copy-on-write paused set made PauseFetchPartitions write a map the
 // fetch loop reads. No scenario paused individual partitions repeatedly.)
+
+// growU adds a partition to topic u (set per execution; one execution at a time per process).
+var growU = func() {}
 
 type apiCall struct {
 	name string
@@ -72,6 +76,9 @@ func apiScript(group bool) []apiCall {
 				cancel()
 			}},
 			apiCall{"force-rebalance", func(cl *kgo.Client) { cl.ForceRebalance() }},
+			// the partition count of a topic only ANOTHER member consumes changes (the
+			// leader tracks it as an external topic and rebalances); twice, so that the
+			// second growth lands while the first rebalance is still being handled
 		)
 	} else {
 		s = append(s,
@@ -123,6 +130,50 @@ func apiScenario(name string, group bool) *netctl.Scenario {
 			}
 			cl := nscen.NewClient(x, "c", c, opts...)
 			rounds := len(script)
+			growU = func() {}
+			if group {
+				// member B of the same group consumes only u: for the leader (the
+				// first member, "c") u is an external topic
+				admc := nscen.Helper(x, c)
+				x.OnCleanup(admc.Close)
+				adm := kadm.NewClient(admc)
+				growU = func() {
+					ctx, cancel := context.WithTimeout(context.Background(), 5*time.Second)
+					adm.CreatePartitions(ctx, 1, "u")
+					cancel()
+				}
+				// the environment grows u in every other round while the leader
+				// refreshes its metadata in every round: a Metadata response that
+				// reports a new partition count of the external topic is in flight
+				// in the rounds in which the leader handles the JoinGroup responses
+				// of the rebalances the earlier growths caused
+				x.Thread("ENVG", func(t *netctl.Thread) {
+					for i := 0; i < rounds; i++ {
+						t.Step(fmt.Sprintf("envg-%d", i))
+						if i%2 == 1 && i < 12 {
+							growU()
+						}
+					}
+				})
+				x.Thread("RF", func(t *netctl.Thread) {
+					for i := 0; i < rounds; i++ {
+						t.Step(fmt.Sprintf("refresh-%d", i))
+						cl.ForceMetadataRefresh()
+					}
+				})
+				x.Thread("B", func(t *netctl.Thread) {
+					t.Step("b-join")
+					b := nscen.NewClient(x, "b", c, kgo.ConsumeTopics("u"), kgo.ConsumerGroup("g"),
+						kgo.ConsumeResetOffset(kgo.NewOffset().AtStart()), kgo.FetchMaxWait(300*time.Millisecond),
+						kgo.HeartbeatInterval(500*time.Millisecond))
+					for i := 0; i < rounds; i++ {
+						t.Step(fmt.Sprintf("b-poll-%d", i))
+						ctx, cancel := context.WithTimeout(context.Background(), 150*time.Millisecond)
+						b.PollFetches(ctx)
+						cancel()
+					}
+				})
+			}
 			x.Thread("POLL", func(t *netctl.Thread) {
 				for i := 0; i < rounds+2; i++ {
 					t.Step(fmt.Sprintf("poll-%d", i))
